@@ -2,7 +2,7 @@
 C17 - inventories: faithful write, survivable read.
   R17.1 nothing from the curated sources escapes SphinxInventory.update (reader totality on untrusted bytes)
   R17.2 line grammar: every index into the split line is protected; only ValueError leaves; the caller skips the line
-  R17.3 every decoding stage reports and yields an empty payload
+  R17.3 every decoding stage reports its failure and keeps what is still usable (complete lines of a truncated stream, decodable lines)
   R17.4 writer/reader agreement on the line format; one line per visible object
 Does not decide: equality after a real round trip, Sphinx's own loader.
 """
@@ -131,24 +131,52 @@ def run(repo: Repo, chk: Check, thorough: bool = False) -> None:
 
     # ------------------------------------------------------------ R17.3
     gp = repo.func(f'{READER}._getPayload')
-    stages = {'decompress': 'error', 'decode': 'UnicodeDecodeError'}
-    for callname, exc in stages.items():
-        cs = [c for c in calls_in(gp) if call_name(c) == callname]
-        if not cs:
-            chk.error(f'R17.3: no {callname}() call in _getPayload')
-            continue
-        for c in cs:
-            h = None
-            for t in enclosing_trys(c, gp.node):
-                h = _handles(t, exc)
-                if h is not None:
-                    break
-            ok = h is not None and any(isinstance(n, ast.Call) and call_name(n) == 'error' for st in h.body for n in ast.walk(st)) \
-                and isinstance(h.body[-1], ast.Return) and isinstance(h.body[-1].value, ast.Constant) and h.body[-1].value.value == '' \
-                and not reraises(h)
-            chk.ob('R17.3', f'{READER}._getPayload :: {callname} failure reported, empty payload', ok,
-                   f'except {", ".join(handler_names(h))}: self.error(...); return \'\'' if ok and h is not None else
-                   f'a failing {callname}() is not (reported and turned into an empty payload)', repo.loc(gp.mod, c))
+    cfgp = CFG(gp)
+    # stage 1, inflate: failures are reported; a truncated stream keeps the lines that were recovered (incremental decompressor) - the
+    # one-shot zlib.decompress() is all-or-nothing
+    oneshot = [c for c in calls_in(gp) if call_name(c) == 'decompress' and norm(c.func).startswith('zlib.')]
+    incr = [c for c in calls_in(gp) if call_name(c) == 'decompressobj']
+    inflate = oneshot + [c for c in calls_in(gp) if call_name(c) == 'decompress' and not norm(c.func).startswith('zlib.')]
+    if not inflate:
+        raise AnalysisError('R17.3: no decompress() call in _getPayload')
+    for c in inflate:
+        h = None
+        for t in enclosing_trys(c, gp.node):
+            h = _handles(t, 'error')
+            if h is not None:
+                break
+        reported = any(call_name(x) == 'error' and isinstance(x.func, ast.Attribute) and dotted(x.func.value) == 'self' for x in calls_in(gp))
+        ok = h is not None and not reraises(h) and reported
+        chk.ob('R17.3', f'{READER}._getPayload :: inflate failure is caught and reported', ok,
+               f'except {", ".join(handler_names(h))} + self.error(...)' if ok and h is not None else 'a failing decompress() is not caught / not reported',
+               repo.loc(gp.mod, c))
+    chk.ob('R17.3', f'{READER}._getPayload :: a truncated stream keeps its complete lines', bool(incr) and not oneshot,
+           'zlib.decompressobj(): what was inflated before the damage is kept' if incr and not oneshot else
+           'zlib.decompress() is all-or-nothing: an objects.inv cut short by a few bytes (interrupted download) yields no entry at all, although almost '
+           'every line is recoverable - "usable lines in the same file still resolve" does not hold', repo.loc(gp.mod, inflate[0]))
+    # stage 2, decode: a line that is not UTF-8 must not take the other lines with it
+    dec = [c for c in calls_in(gp) if call_name(c) == 'decode']
+    if not dec:
+        raise AnalysisError('R17.3: no decode() call in _getPayload')
+    hs = []
+    for c in dec:
+        for t in enclosing_trys(c, gp.node):
+            h = _handles(t, 'UnicodeDecodeError')
+            if h is not None and h not in hs:
+                hs.append(h)
+    # (the per-line handlers nested in a reporting handler may drop their line silently: the problem has been reported once)
+    okh = bool(hs) and all(not reraises(h) for h in hs) and \
+        any(any(isinstance(n, ast.Call) and call_name(n) == 'error' for st in h.body for n in ast.walk(st)) for h in hs) and \
+        all(any(_handles(t, 'UnicodeDecodeError') is not None for t in enclosing_trys(c, gp.node)) for c in dec)
+    chk.ob('R17.3', f'{READER}._getPayload :: decode failure is caught and reported', okh,
+           'except UnicodeError: self.error(...)' if okh else 'a failing decode() is not caught / not reported', repo.loc(gp.mod, dec[0]))
+    linewise = any(isinstance(n, (ast.For, ast.ListComp, ast.GeneratorExp)) and any(isinstance(x, ast.Call) and call_name(x) == 'decode' for x in ast.walk(n)) for n in gp.walk()) or \
+        any(isinstance(k.value, ast.Constant) and k.value.value in ('replace', 'ignore', 'backslashreplace', 'surrogateescape') for c in dec for k in c.keywords) or \
+        any(isinstance(a, ast.Constant) and a.value in ('replace', 'ignore', 'backslashreplace', 'surrogateescape') for c in dec for a in c.args[1:])
+    chk.ob('R17.3', f'{READER}._getPayload :: an undecodable line does not discard the others', linewise,
+           'decoded line by line (or with a lossy error handler)' if linewise else
+           'the payload is decoded in one piece and \'\' is returned on UnicodeError: one Latin-1 display name in a remote inventory makes every other entry of '
+           'that inventory unresolvable', repo.loc(gp.mod, dec[0]))
     up = repo.func(f'{READER}.update')
     cfg_up = CFG(up)
     pl = [c for c in calls_in(up) if call_name(c) == '_getPayload']
@@ -160,7 +188,7 @@ def run(repo: Repo, chk: Check, thorough: bool = False) -> None:
             ok = False
     chk.ob('R17.3', f'{READER}.update :: missing data reported before decoding', ok,
            '_getPayload is only reached when the cache returned data' if ok else '_getPayload may be called with no data', up.loc)
-    chk.require('R17.3', 3)
+    chk.require('R17.3', 5)
 
     # ------------------------------------------------------------ R17.4
     gl = repo.func(f'{WRITER}._generateLine')
